@@ -372,7 +372,7 @@ def accepts_ahb_lenient(text, unicode_rep=False) -> bool:
     non-blank condition text is accepted by R_cond, a prefix operator with a condition stands alone, and a bare
     indicator (no or only blank condition text) comes last.
     """
-    for parts in split_ahb_lenient(text):
+    for parts in split_ahb_lenient(text, any_space=unicode_rep):
         ok = True
         for index, (indicator, cond) in enumerate(parts):
             blank = cond is None or not cond.strip(WS_CHARS)
